@@ -92,8 +92,10 @@ BASES = {
     },
     "quoted": {
         # a quote character of its own, everything else left at its default; the data contain the quote character
-        "cid": [["d", "format", "delimited"], ["d", "quote character", "'"], ["d", "item delimiter", ";"],
-                ["f", "id", "", "", "", "Integer", ""], ["f", "surname", "O'Brian", "", "", "Text", ""],
+        # (one data format row stands below the first field row: rows may come in any order as long as Format is first)
+        "cid": [["d", "format", "delimited"], ["d", "quote character", "'"],
+                ["f", "id", "", "", "", "Integer", ""], ["d", "item delimiter", ";"],
+                ["f", "surname", "O'Brian", "", "", "Text", ""],
                 ["f", "remark", "", "X", "", "Text", ""]],
         "data": [["1", "O'Brian", "x;y"], ["2", "Miller", "it's"], ["3", "'", ""]],
     },
